@@ -549,6 +549,24 @@ def e2e_engine(pid, spec, tier, seed, workdir, res):
                                                   why='projected observables differ: ' + ','.join(parts)))
                     break
         res['nontrivial'] |= nontrivial
+        # request objects: the caller's request is never modified, and the request handed to the upstream neither is the
+        # caller's object nor goes anywhere but to the client's URL.  For C02 / C16 (and C03 for the URL) that is the
+        # property itself; for the other properties it is a difference between the implementation and the model, whose
+        # requests are immutable values
+        notes_p = os.path.join(out, 'reqnotes.txt')
+        if os.path.exists(notes_p):
+            for line in open(notes_p):
+                t = line.rstrip('\n').split(' ', 4)
+                if len(t) < 5 or t[0] != 'N' or t[1] not in cases:
+                    continue
+                dist['reqnote:' + t[3]] = dist.get('reqnote:' + t[3], 0) + 1
+                direct = pid in ('C02', 'C16') or (pid == 'C03' and t[3] != 'caller-request-modified')
+                if direct:
+                    res['violations'].append(dict(kind='monitor', code=pid + ':' + t[3], case=t[1], exchange=int(t[2]), profile=prof, dir=out,
+                                                  payload=dict(request_objects=t[4][:1500])))
+                else:
+                    res['mismatches'].append(dict(case=t[1], exchange=int(t[2]), profile=prof, dir=out,
+                                                  why='request objects: ' + t[3] + ' (the model treats requests as immutable values): ' + t[4][:600]))
         # metamorphic twins (C12): the same history with canonical Cache-Control spelling must behave identically
         if r.get('twins'):
             tparts = ['outcome', 'cache_status', 'age', 'calls', 'store']
